@@ -4,6 +4,8 @@ NOTES = ("Technique family: runtime monitoring and sanitizers. Every verdict is 
          "evidence files report what the monitors saw. See DESIGN.md.")
 
 ENGINES = [
+    {"name": "fuzzopen", "path": "harness/src/engines/fuzzopen.rs", "serves_properties": ["C17"],
+     "kind_free_text": "robustness monitor: synthesised + mutated / forged device images opened by the real store in child processes under catch_unwind, panic hook, abort and hang detection, byte-identity check on rejected files, probe workload on stores that open"},
     {"name": "space", "path": "harness/src/engines/space.rs", "serves_properties": ["C05"],
      "kind_free_text": "invariant monitor at quiescent points: data-area partition from the H4 snapshot + independent decode of the raw file + isolation reads + drain/refill epilogue, on small nearly-full devices"},
     {"name": "fault", "path": "harness/src/engines/fault.rs", "serves_properties": ["C09"],
@@ -34,6 +36,12 @@ _CONC_NOTE = ("Trusted: client-boundary history recording with one global logica
               "Probabilistic reach into each window, compensated by targeted delays; evidence counts, per scheduling point, arrivals / perturbed / windows in which another operation completed.")
 
 TEXT = {
+    "C17": {
+        "engine": "fuzzopen",
+        "technique": "runtime robustness monitoring over generated and structure-aware forged device images (panic hook + catch_unwind, abort/hang detection from a parent process, byte-identity hashing)",
+        "level_text": "Thousands (quick) to hundreds of thousands (thorough) of images: valid v1/v2/v3 devices synthesised by the independent codec and damaged by 21 mutators including forgeries whose tokens and checksums are recomputed so that they pass the first gate. Every open must return (Ok or Err) without panic, abort or hang; stores that open must answer a probe workload (reads of every listed key, range, insert/update/delete/CAS/increment/patch/TTL, flush, drop) without panicking; files without a recognisable signature must be rejected unmodified; opens failing with InvalidDevice/InvalidMetadata must leave the file byte-identical. One genuine defect found and fixed (journal with generation u64::MAX replayed before the open failed).",
+        "level_note": "Trusted: panic hook / process supervision; the independent codec as image writer (unmutated synthesised images must open to exactly their records, otherwise the run is inconclusive). Not coverage-guided.",
+    },
     "C05": {
         "engine": "space + crash(partition)",
         "technique": "runtime invariant monitoring at quiescent points (exact partition of the data area from a state snapshot, cross-checked by an independent decode of the raw file), plus the same invariant on stores recovered from enumerated crash images",
